@@ -477,6 +477,21 @@ class RAlg(_Alg):
         return SymNum(t, KFLOAT)
 
 
+    def fnn(self, name, xs):
+        """n-ary library functions over the reals: fsum is the sum, hypot the root of the sum of squares"""
+        xs = [SymNum.lift(v) for v in xs]
+        if name == "fsum":
+            r = SymNum(z3.RealVal(0), KFLOAT)
+            for v in xs:
+                r = self.binop("+", r, v)
+            return SymNum(r.t, KFLOAT)
+        if name == "hypot":
+            r = SymNum(z3.RealVal(0), KFLOAT)
+            for v in xs:
+                r = self.binop("+", r, self.binop("*", v, v))
+            return self.fn("sqrt", r)
+        raise EngineError(f"n-ary {name} is not modelled")
+
     _F2 = {}
 
     def fn2(self, name, a, b, commutative=False):
@@ -539,6 +554,22 @@ class UAlg(_Alg):
         if name not in self._F:
             self._F[name] = z3.Function("f" + name, R, R)
         return SymNum(self._F[name](a.t), KFLOAT)
+
+    _FN = {}
+
+    def fnn(self, name, xs):
+        """an n-ary library function whose value does not depend on the order of its arguments
+        (fsum is the correctly rounded exact sum, hypot is symmetric): its own uninterpreted
+        operation per arity, applied to the canonically ordered arguments - never identified
+        with a chain of float additions"""
+        ts = [SymNum.lift(v).t for v in xs]
+        if not ts:
+            return SymNum(z3.RealVal(0), KFLOAT)
+        ts.sort(key=lambda t: (t.hash(), t.sexpr()))
+        key = (name, len(ts))
+        if key not in self._FN:
+            self._FN[key] = z3.Function(f"f{name}{len(ts)}", *([R] * (len(ts) + 1)))
+        return SymNum(self._FN[key](*ts), KFLOAT)
 
     _F2 = {}
 
@@ -620,9 +651,24 @@ class SymMath:
     def hypot(self, *a):
         if not any(isinstance(v, (SymNum, SymBool)) for v in a):
             return _math.hypot(*a)
-        if len(a) != 2:
-            raise EngineError("math.hypot with other than two arguments is not modelled")
-        return cur().alg.fn2("hypot", a[0], a[1], commutative=True)
+        if len(a) == 2:
+            return cur().alg.fn2("hypot", a[0], a[1], commutative=True)
+        return cur().alg.fnn("hypot", a)
+
+    def fsum(self, xs):
+        xs = list(xs)
+        if not any(isinstance(v, (SymNum, SymBool)) for v in xs):
+            return _math.fsum(xs)
+        return cur().alg.fnn("fsum", xs)
+
+    def prod(self, xs, *, start=1):
+        xs = list(xs)
+        if not any(isinstance(v, (SymNum, SymBool)) for v in xs + [start]):
+            return _math.prod(xs, start=start)
+        r = start
+        for v in xs:
+            r = r * v
+        return r
 
     def pow(self, x, y):
         if not any(isinstance(v, (SymNum, SymBool)) for v in (x, y)):
@@ -675,6 +721,50 @@ class SymMath:
 
 
 SYM_MATH = SymMath()
+
+
+class SymStatistics:
+    """Stand-in for the ``statistics`` module inside a scratch namespace: fmean / mean / fsum on
+    symbolic numbers (fmean = fsum / n, as CPython computes it); everything else is the real module"""
+
+    def fmean(self, data, weights=None):
+        import statistics as _st
+        data = list(data)
+        if weights is not None or not any(isinstance(v, (SymNum, SymBool)) for v in data):
+            return _st.fmean(data) if weights is None else _st.fmean(data, weights)
+        if not data:
+            raise _st.StatisticsError("fmean requires at least one data point")
+        return SYM_MATH.fsum(data) / len(data)
+
+    def mean(self, data):
+        import statistics as _st
+        data = list(data)
+        if not any(isinstance(v, (SymNum, SymBool)) for v in data):
+            return _st.mean(data)
+        if not data:
+            raise _st.StatisticsError("mean requires at least one data point")
+        return SYM_MATH.fsum(data) / len(data)
+
+    def __getattr__(self, name):
+        import statistics as _st
+        return getattr(_st, name)
+
+
+SYM_STATISTICS = SymStatistics()
+
+
+def rebind_library_names(ns):
+    """names a module bound with `import statistics` / `from math import fsum, hypot` /
+    `from statistics import fmean` are pointed at the stand-ins (the rebinding of `math` itself is
+    in BUILTIN_REBINDS)"""
+    import statistics as _st
+    for n, obj in list(ns.items()):
+        if obj is _st:
+            ns[n] = SYM_STATISTICS
+        elif callable(obj) and getattr(obj, "__module__", None) == "math" and getattr(_math, getattr(obj, "__name__", ""), None) is obj:
+            ns[n] = getattr(SYM_MATH, obj.__name__)
+        elif callable(obj) and getattr(obj, "__module__", None) == "statistics" and obj.__name__ in ("fmean", "mean"):
+            ns[n] = getattr(SYM_STATISTICS, obj.__name__)
 
 
 # --------------------------------------------------------------------------
@@ -1161,7 +1251,7 @@ class Ctx:
         fresh arguments for every path."""
         return self.merged(lambda _i: call(fn, *a, **k))
 
-    def merged(self, thunk, max_paths=64):
+    def merged(self, thunk, max_paths=256):
         """thunk(path_index) -> call() outcome, run on every feasible path from the
         current state; the outcomes are merged into one if-then-else outcome, so
         that a caller written for a single-path function still covers a function
@@ -1172,6 +1262,7 @@ class Ctx:
         had_full = self.solver is not None
         work = [[]]
         results, cond_asm, npath = [], [], 0
+        overflow = False
         self.exploring += 1
         try:
             while work:
@@ -1201,12 +1292,17 @@ class Ctx:
                     else:
                         self.solver = None
                 if len(results) > max_paths:
-                    raise EngineError(f"more than {max_paths} paths in a merged call")
+                    # too many paths to enumerate: the call is left undecided (the caller reports the
+                    # obligations that needed its value as failed, with the replay search to settle them)
+                    overflow = True
+                    break
         finally:
             self.exploring -= 1
             self.pc, self.taken, self.schedule, self.worklist = base_pc, base_taken, base_sched, base_work
         for x in cond_asm:
             self.assume(x)
+        if overflow:
+            return ("split", results + [(z3.BoolVal(True), ("path-budget", f"more than {max_paths} paths"))])
         if not results:
             raise PathAbort("no feasible path through the merged call")
         if len(results) == 1:
